@@ -30,6 +30,11 @@ CHECKS = {
         technique="TLA+ design spec SigStoreConc (reader steps x atomic writer commits, all interleavings, TLC) and linearisation contract Trace_SigStoreConc: TLC-generated interleavings replayed deterministically through gate hooks, stress traces under the race detector; TLC chooses linearisation points to explain every recorded call/ret trace",
         text="TLC exhausts the interleavings of one scan (snapshot, config read, index iteration, per-hit fetch) with writer commits and rebuild phases in the design model (and shows the model is sensitive: reading outside the snapshot violates it). The code is bound in both directions: TLC interleavings are replayed with the gates as a scheduler, and free-running stress executions (3 writers + 4 readers, both back ends, -race) are recorded; every trace must be explainable by SOME linearisation in which each scan result is the contract's result for one committed state of its window.",
         note=TRUST + "; data-race clause decided by the Go race detector on the same executions; verdicts never depend on sleeps, only on call/ret order"),
+    "C15": dict(
+        level="model_checking", ref="3/C15",
+        technique="TLA+ contract HardenedEnvContract (Effective + PassThrough) with the filter-then-append design checked by TLC for all environments <= MaxLen; TLC-generated and hostile environments installed via os.StartProcess, GetHardenedEnv's result and the raw environment received by the real `go list` children of sfw (go shim) validated by TLC",
+        text="TLC proves the design meets the contract for every environment of up to 3 (thorough 4) entries over a pool of guarded, look-alike, mixed-case, duplicate and malformed entries; the real function is run under those and under seeded hostile environments with duplicates preserved, and the environment that actually reaches the Go tool from sfw check/diff/index/scan (--deps) is captured by a `go` shim; every observation is validated by TLC.",
+        note=TRUST + "; 'unrelated' = key not starting with GO/CGO; the Go runtime's own de-duplication of os.Environ() is taken as given"),
 }
 
 NOT_YET = {}
